@@ -107,7 +107,8 @@ CLAIMS = {
              "R15.3 no unchecked +/* on an unbounded tainted value; R15.4 slice ranges built from tainted values are dominated by a "
              "comparison against the input length; R15.5 Incomplete-sentinel discipline incl. a completeness guard that covers "
              "payload+CRLF; R15.6 decimal scratch buffers hold i64::MIN. Does not decide prefix-stability or round-trips by value. R15.7 a hand-written signed decimal parser does not negate an accumulated magnitude (i64::MIN).  Local integer-parsing helpers count as taint sources."
-             ' R15.8 reply encoders never write a constant that is conditional on a prefix/substring test of the payload (payload transparency).',
+             ' R15.8 reply encoders never write a constant that is conditional on a prefix/substring test of the payload (payload transparency).'
+             " R15.5 also requires a bulk string with a payload to be returned only behind the completeness test; R15.10 every encoder opens each RespValue variant with that variant's marker on every path.",
         technique="intra-procedural forward taint over MIR with root tracking and guard-based sanitisation (dominating comparisons)",
         ref="DESIGN.md §3 C15"),
     "C13": dict(
@@ -171,7 +172,8 @@ CLAIMS = {
              "hasher, a first-element pick or a per-element RNG draw (8 frozen, reasoned exceptions); R20.4 the event queue is a "
              "BinaryHeap ordered by virtual time. The quick tier analyses the default and the simulation-feature configuration. Does not "
              "compare traces across processes. R20.5 fault decisions compare the RNG draw with FaultConfig::get on the current config (or the probability parameter) only."
-             ' R20.6 harness-reachable code uses no run-time-mutable static and no thread-local other than the BUGGIFY context; process-keyed hashers (AHasher::default, RandomState) are forbidden as sources of values in harness-reachable code.',
+             ' R20.6 harness-reachable code uses no run-time-mutable static and no thread-local other than the BUGGIFY context; process-keyed hashers (AHasher::default, RandomState) are forbidden as sources of values in harness-reachable code.'
+             ' Conditional hash-order exceptions also require that no harness calls the excepted function directly, and a hash-ordered result accepted as unobserved is re-examined at every harness-reachable caller for a per-element seeded-RNG draw.',
         technique="call-graph reachability over resolved callees with path witnesses, dataflow from unordered iterations to order-sensitive sinks (rule H), conditional exception table",
         ref="DESIGN.md §3 C20"),
     "C02": dict(
@@ -202,7 +204,8 @@ CLAIMS = {
              "translator arm exists in the RESP parser, builds the same variant, normalises keyword case at the same argument positions "
              "and knows only RESP keywords (4 known findings: missing options); R16.4 RESP->Lua conversion covers all RespValue "
              "variants. Does not decide script effect equality. R16.5 the Lua translator builds SDS operands from raw bytes."
-             ' R16.1 also compares what surrounds the arm tables (how the command name is extracted and case-folded); R16.3 also requires the same command-name folding on the script path and every reject-only call of a client arm (`Self::check_x(..)?;`) to be present in the script arm.',
+             ' R16.1 also compares what surrounds the arm tables (how the command name is extracted and case-folded); R16.3 also requires the same command-name folding on the script path and every reject-only call of a client arm (`Self::check_x(..)?;`) to be present in the script arm.'
+             ' R16.3 also requires each option keyword to assign the same option variables on the client and the script path.',
         technique="syn AST normal-form comparison of sibling implementations (engine/synq), arm-summary comparison, enum-dispatch exhaustiveness from MIR",
         engine="synq+rules",
         ref="DESIGN.md §3 C16"),
